@@ -535,6 +535,8 @@ def vary_parameters(rng, spec):
     for c in b["comparisons"]:
         if c["route"] in ("lib_exact", "lib_lev") and rng.random() < 0.5:
             on = any(lv["tf_col"] for lv in c["levels"])
+            if not on and any(lv["kind"] == "exact" and Fr(lv["u"]) == 0 for lv in c["levels"]):
+                continue          # u_exact = 0 would make the factor inf * 0 (IEEE NaN, outside the model)
             for lv in c["levels"]:
                 if lv["kind"] == "exact":
                     lv["tf_col"] = None if on else c["name"]
@@ -581,12 +583,13 @@ def realtime_sequences(case, rng, api_rt, byid, ids, lnk, data_tf, tfv_rows):
     alltf = sorted(set().union(*[set(m.get("tf_cols_all", m["tf_cols"])) for m in models]))
     rows = []          # (model index, entry name, left, right, tfv, engine record)
     keep = []          # objects that must stay alive (SettingsCreator cache entries are weak references)
-    forms = rng.sample(["creator_dict", "creator_dict", "settings_creator", "plain_dict", "path_str", "path"], 3)
+    forms = ["creator_dict" if rng.random() < 0.6 else "settings_creator",
+             rng.choice(["settings_creator", "plain_dict", "path_str", "path", "creator_dict"])]
     with tempfile.TemporaryDirectory(prefix="c10rt_") as tmp:
         for fi, form in enumerate(forms):
             objs = [settings_in_form(m, form, case["backend"], tmp, f"{fi}_{k}") for k, m in enumerate(models)]
             keep.append(objs)
-            order = [0, 1] + ([2] if len(models) > 2 else []) + [0, 1]
+            order = [0, 1] + ([2] if len(models) > 2 else []) + [0]
             for mi in order:
                 i, j = rng.sample(ids, 2)
                 rl, rr = byid[i], byid[j]
